@@ -148,21 +148,35 @@ def rng_concrete(seed):
 
 def _concrete_draw(kind, args):
     g = RNG_STATE["gen"]
+    log = ctx().rng_log
     if kind == "randint":
         lo, hi = args
         if hi is None:
             lo, hi = 0, lo
-        return int(lo) + g.randrange(int(hi) - int(lo))
+        v = int(lo) + g.randrange(int(hi) - int(lo))
+        log.append(("randint", v, int(lo), int(hi)))
+        return v
     if kind == "uniform":
         a, b = args
-        return a + (b - a) * (g.randrange(1, 64) / 64.0)
+        u = a + (b - a) * (g.randrange(1, 64) / 64.0)
+        log.append(("uniform", u))
+        return u
     if kind == "choice":
         a, p = args
         items = list(a) if hasattr(a, "__len__") else list(range(int(a)))
         if p is None:
             return items[g.randrange(len(items))]
+        p = list(p)
+        if len(p) != len(items):
+            raise ValueError("'a' and 'p' must have same size")
+        if any(w < 0 for w in p):
+            raise ValueError("probabilities are not non-negative")
+        if abs(float(sum(p)) - 1.0) > math.sqrt(numpy.finfo(numpy.float64).eps):
+            raise ValueError("probabilities do not sum to 1")
         pos = [i for i, w in enumerate(p) if w > 0]
-        return items[pos[g.randrange(len(pos))]]
+        k = pos[g.randrange(len(pos))]
+        log.append(("choice", k, p))
+        return items[k]
     if kind == "normal":
         return (g.randrange(-128, 129)) / 64.0
     raise HarnessError("concrete draw of " + kind)
